@@ -135,6 +135,29 @@ pub fn dump() -> Value {
         states.insert("lj_circle".into(), probe_state(&lj));
         let ljt = PotentialState::from_group(LJShape2::from_trimer(0.637556, 120., 1.), &g).unwrap();
         states.insert("lj_trimer".into(), probe_state(&ljt));
+        // the same states after the cell has shrunk: the ranges a LATER optimisation stage would declare
+        // (bounds are re-derived from the current values at each stage)
+        {
+            let shrink = |st: &dyn Fn() -> Value| st();
+            let _ = shrink;
+            macro_rules! shrunk {
+                ($name:expr, $st:expr) => {{
+                    let st = $st;
+                    {
+                        let mut b = st.generate_basis();
+                        let l = b[0].get_value();
+                        b[0].set_value(l * 0.8125);
+                        b[1].set_value(0.4375);
+                    }
+                    states.insert(format!("{}@shrunk", $name), probe_state(&st));
+                }};
+            }
+            shrunk!("hard_polygon4", PackedState::from_group(LineShape::polygon(4).unwrap(), &g).unwrap());
+            shrunk!("hard_circle", PackedState::from_group(MolecularShape2::circle(), &g).unwrap());
+            shrunk!("hard_trimer", PackedState::from_group(MolecularShape2::from_trimer(0.637556, 120., 1.), &g).unwrap());
+            shrunk!("lj_circle", PotentialState::from_group(LJShape2::circle(), &g).unwrap());
+            shrunk!("lj_trimer", PotentialState::from_group(LJShape2::from_trimer(0.637556, 120., 1.), &g).unwrap());
+        }
         groups.push(json!({
             "cli": name, "name": g.name, "family": format!("{:?}", g.family),
             "ops_str": g.wyckoff_str, "ops": ops, "ops_error": err,
